@@ -109,5 +109,9 @@ func Corpus() []*Schema {
 			{Name: "Outer", Fields: []F{{"n", 1, "int32", "opt"}}, Nested: []M{{Name: "In", Fields: []F{{"s", 1, "string", "opt"}},
 				Ext: []F{{"x_nested", 101, "string", "ext:Base"}}}}}},
 		FileExt: []F{{"x_top", 100, "int64", "ext:Base"}, {"x_top_msg", 102, "msg:Outer", "ext:Base"}}})
+	// two messages whose short names coincide when lower-cased: one output file name for both with
+	// filepermessage=true (open finding B15)
+	cs = append(cs, &Schema{ID: "samename", Syntax: "proto3", Messages: []M{{Name: "Outer", Fields: []F{{"a", 1, "int32", "opt"}},
+		Nested: []M{{Name: "Inner", Fields: []F{{"b", 1, "string", "opt"}}}}}, {Name: "Inner", Fields: []F{{"c", 1, "bool", "opt"}}}}})
 	return cs
 }
